@@ -118,7 +118,12 @@ func TestVerifZoo(t *testing.T) {
 				if moment == "after-gc" {
 					churn()
 				}
-				for _, form := range forms {
+				fs := forms
+				if c.variadic && mode == "apply" {
+					// the variadic slice itself: none given -> nil; the caller's slice spread -> that very slice
+					fs = append(append([]string{}, forms...), "novar", "spread")
+				}
+				for _, form := range fs {
 					seen = false
 					var d string
 					p := catchS(func() { d = c.call(form, want) })
